@@ -52,12 +52,18 @@ pub struct Built<D: 'static + scpi::Device, H: Command<D> + 'static> {
 
 impl<D: 'static + scpi::Device, H: Command<D> + 'static> Built<D, H> {
     pub fn new(root_children: &[Spec], handlers: Vec<H>) -> Self {
+        Self::new_named(b"", root_children, handlers)
+    }
+
+    /// the node `run` is called on carries a name of its own (a sub-tree used as a tree: `Branch!(b"CARD"; ...)`)
+    pub fn new_named(top: &[u8], root_children: &[Spec], handlers: Vec<H>) -> Self {
         let mut b = Built { root: std::ptr::null_mut(), slices: vec![], names: vec![], handlers: vec![] };
         for h in handlers {
             b.handlers.push(Box::into_raw(Box::new(h)));
         }
         let sub = b.build_slice(root_children);
-        let root = Box::new(Node::Branch { name: b"", default: false, sub });
+        let name = b.name(top);
+        let root = Box::new(Node::Branch { name, default: false, sub });
         b.root = Box::into_raw(root);
         b
     }
